@@ -17,20 +17,18 @@
 
   MODELLED, NOT VERIFIED: serde and serde_derive (1.0.229).  Not modelled at all (the model
   answers `CRes.unmodelled`, printed `unmodelled` by the driver; the streams never go there):
-  numeric coercions by serde's primitive visitors on a mismatching `Content` other than
-  int→int and f32→f64 (int→float, f64→f32), and `Content`-buffered types nested inside another
-  `Content` buffer.
+  the `f64 as f32` coercion of serde's `f32` visitor on a `Content::F64`, and `Content`-buffered
+  types nested inside another `Content` buffer.
 
-  `skipItem` below is a private, simple item skipper standing in for `Decoder::skip`
-  (`Skip.lean`, the faithful state machine, is built separately): it agrees with the real
-  `skip` on every well-formed item and on every truncation of one.  It differs on some
-  ill-formed input the real `skip` accepts (a stray break where an item is expected).
+  `skipItem` is `Dec.skip true`, the model of `Decoder::skip` from Skip.lean (used for `null`
+  and for `IgnoredAny`, i.e. unknown struct fields).
 -/
 import Minicbor.Prelude
 import Minicbor.Utf8
 import Minicbor.Float
 import Minicbor.Encoder
 import Minicbor.Decoder
+import Minicbor.Skip
 
 namespace Minicbor.Serde
 open Minicbor.Dec (current read datatype intAcc unsigned typeMismatch remaining fail bytesIter strIter infoOf IntTy)
@@ -126,7 +124,7 @@ def sers : List SVal → Bytes
   | x :: xs => ser x ++ sers xs
 end
 
-/-! ## a simple item skipper (stand-in for `Decoder::skip`, see the header) -/
+/-! ## loops -/
 
 /-- `n` times `m`, collecting the results. -/
 def repeatN (m : Dec α) : Nat → Dec (List α)
@@ -150,37 +148,9 @@ def untilBreak (m : Dec α) : Nat → Dec (List α)
       let xs ← untilBreak m fuel
       pure (x :: xs)
 
-def skipF : Nat → Dec Unit
-  | 0 => Dec.panic
-  | fuel + 1 => do
-    let b ← current
-    let n := b.toNat
-    if n ≤ 0x1b then do let _ ← intAcc .u64; pure ()
-    else if 0x20 ≤ n && n ≤ 0x3b then do let _ ← intAcc .int; pure ()
-    else if 0x40 ≤ n && n ≤ 0x5f then do let _ ← bytesIter; pure ()
-    else if 0x60 ≤ n && n ≤ 0x7f then do let _ ← strIter; pure ()
-    else if 0x80 ≤ n && n ≤ 0x9f then do
-      let len ← Dec.array
-      match len with
-      | some k => do let _ ← repeatN (skipF fuel) k; pure ()
-      | none => do let _ ← untilBreak (skipF fuel) fuel; pure ()
-    else if 0xa0 ≤ n && n ≤ 0xbf then do
-      let len ← Dec.map
-      match len with
-      | some k => do let _ ← repeatN (skipF fuel) (2 * k); pure ()
-      | none => do let _ ← untilBreak (skipF fuel) fuel; pure ()
-    else if 0xc0 ≤ n && n ≤ 0xdb then do
-      let _ ← read
-      let _ ← unsigned (infoOf b)
-      skipF fuel
-    else if 0xe0 ≤ n && n ≤ 0xfb then do
-      let _ ← read
-      let _ ← unsigned (infoOf b)
-      pure ()
-    else typeMismatch b
-
-/-- skip one item. -/
-def skipItem : Dec Unit := fun bs => skipF (bs.length + 1) bs
+/-- `Decoder::skip` (the `alloc` build, which `std` implies): the faithful state machine of
+    Skip.lean. -/
+def skipItem : Dec Unit := Dec.skip true
 
 /-! ## de.rs: the access objects -/
 
@@ -566,6 +536,26 @@ def singleChar : Bytes → Option Nat
 def f32AsF64 (b : Nat) : Nat :=
   if isNan32 b then 0x7ff8000000000000 + (b / 2147483648) * 9223372036854775808 else f32ToF64 b
 
+/-- Rust's `n as f32` / `n as f64` for an unsigned integer: round to nearest, ties to even
+    (`mbits` mantissa bits, exponent bias `ebias`); the result is the bit pattern. -/
+def natToFloat (mbits ebias : Nat) (n : Nat) : Nat :=
+  if n == 0 then 0
+  else
+    let l := Nat.log2 n
+    if l ≤ mbits then (l + ebias) * 2 ^ mbits + (n * 2 ^ (mbits - l) - 2 ^ mbits)
+    else
+      let sh := l - mbits
+      let q := n / 2 ^ sh
+      let r := n % 2 ^ sh
+      let half := 2 ^ (sh - 1)
+      let q' := if r > half || (r == half && q % 2 == 1) then q + 1 else q
+      (l + ebias) * 2 ^ mbits + (q' - 2 ^ mbits)
+
+def intToF64 (v : Int) : Nat :=
+  if v ≥ 0 then natToFloat 52 1023 v.toNat else 9223372036854775808 + natToFloat 52 1023 (-v).toNat
+def intToF32 (v : Int) : Nat :=
+  if v ≥ 0 then natToFloat 23 127 v.toNat else 2147483648 + natToFloat 23 127 (-v).toNat
+
 mutual
 /-- `T::deserialize(ContentDeserializer::new(c))` (`own = true`) or
     `ContentRefDeserializer` (`own = false`, used by untagged enums). -/
@@ -578,13 +568,13 @@ def fromC : SType → Bool → Content → CRes SVal
     | _ => .fail
   | .f32, _, c => match c with
     | .f32 b => pure (.f32 b)
-    | .f64 _ => .unmodelled
-    | .int _ _ => .unmodelled
+    | .f64 _ => .unmodelled                     -- `f64 as f32`
+    | .int _ v => pure (.f32 (intToF32 v))      -- the float visitors accept integers (`v as f32`)
     | _ => .fail
   | .f64, _, c => match c with
     | .f64 b => pure (.f64 b)
     | .f32 b => pure (.f64 (f32AsF64 b))
-    | .int _ _ => .unmodelled
+    | .int _ v => pure (.f64 (intToF64 v))
     | _ => .fail
   | .char, _, c => match c with                 -- an integer is *not* accepted (known finding K6)
     | .str s => match singleChar s with
